@@ -112,7 +112,11 @@ pub fn swarm(rng: &mut Rng, flavor: Flavor, max_len: usize) -> Swarm {
     // thresholds: powers of two and their neighbours are where buffers, caches and "fast paths"
     // change behaviour; hit them on purpose now and then
     if rng.chance(1, 60) {
-        let t = *rng.pick(&INTERESTING_SIZES);
+        let mut t = *rng.pick(&INTERESTING_SIZES);
+        if rng.chance(1, 3) {
+            // a little below the threshold: framing, prefixes or pending bytes fill the rest
+            t = t.saturating_sub(rng.below(24));
+        }
         if t <= max_len {
             target_len = t;
             exact = true;
@@ -124,13 +128,19 @@ pub fn swarm(rng: &mut Rng, flavor: Flavor, max_len: usize) -> Swarm {
 pub fn workload(rng: &mut Rng, flavor: Flavor, max_len: usize) -> Workload {
     let sw = swarm(rng, flavor, max_len);
     let mut wl = Workload::default();
-    while wl.bytes.len() < sw.target_len && wl.toks.len() < 40_000 {
+    let mut target_len = sw.target_len;
+    while wl.bytes.len() < target_len && wl.toks.len() < 40_000 {
         let kind = ALL_KINDS[rng.weighted(&sw.weights)];
         let start = wl.bytes.len();
         token(rng, kind, flavor, &mut wl.bytes);
         let end = wl.bytes.len();
         if end > start {
             wl.toks.push(Tok { start, end, kind });
+        }
+        // a very long token would otherwise always be the last thing of the workload; what
+        // follows such a run (a style change, the end of a sequence) matters as much as the run
+        if end - start > 1000 && !sw.exact {
+            target_len = target_len.max(end + rng.range(1, 60));
         }
     }
     // keep within the hard bound (or hit the exact size asked for) without cutting a multi-byte
@@ -148,6 +158,211 @@ pub fn workload(rng: &mut Rng, flavor: Flavor, max_len: usize) -> Workload {
         if let Some(t) = wl.toks.last_mut() {
             t.end = t.end.min(cut);
         }
+    }
+    wl
+}
+
+/// Workload from a deliberately *restricted* SGR grammar whose meaning is unambiguous: text
+/// (printable ASCII, `\n`/`\t`/`\r`, characters from U+00A0 up) and `ESC [ groups m` where every
+/// group but the last is a single code that completes by itself, and only the last group may be
+/// a multi-parameter one (38/48/58 in either separator spelling, `4`, `4:n`).  `c18::simple_model`
+/// interprets exactly this grammar independently of the code under test.
+pub fn simple_sgr_workload(rng: &mut Rng, max_len: usize) -> Workload {
+    let sw = swarm(rng, Flavor::Sgr, max_len);
+    let mut wl = Workload::default();
+    const SINGLE: [&str; 34] = [
+        "", "0", "00", "1", "2", "3", "5", "7", "8", "9", "21", "22", "23", "24", "25", "27", "28", "29", "53", "39", "49", "039",
+        "30", "31", "37", "40", "44", "47", "90", "97", "100", "107", "091", "0107",
+    ];
+    while wl.bytes.len() < sw.target_len.max(1) && wl.toks.len() < 40_000 {
+        let start = wl.bytes.len();
+        let kind;
+        if rng.chance(1, 2) {
+            kind = Kind::Ascii;
+            match rng.below(8) {
+                0 => wl.bytes.push(*rng.pick(b"\n\t\r")),
+                1 => push_char(&mut wl.bytes, rand_char_in(rng, 0xa0, 0x7ff)),
+                2 => push_char(&mut wl.bytes, rand_char_in(rng, 0x800, 0xffff)),
+                3 => push_char(&mut wl.bytes, rand_char_in(rng, 0x10000, 0x10ffff)),
+                _ => {
+                    for _ in 0..rng.range(1, 8) {
+                        wl.bytes.push(0x20 + rng.below(0x5f) as u8);
+                    }
+                }
+            }
+        } else {
+            kind = Kind::Sgr;
+            let out = &mut wl.bytes;
+            out.extend_from_slice(b"\x1b[");
+            let singles = match rng.below(6) {
+                0 => 0,
+                1..=3 => 1,
+                4 => 2,
+                _ => rng.range(3, 6),
+            };
+            for i in 0..singles {
+                if i > 0 {
+                    out.push(b';');
+                }
+                let code = match rng.below(4) {
+                    0 => rng.pick(&SINGLE).to_string(),
+                    1 => (*rng.pick(&[30usize, 40, 90, 100]) + rng.below(8)).to_string(),
+                    _ => rng.pick(&SINGLE[19..]).to_string(),
+                };
+                out.extend_from_slice(code.as_bytes());
+            }
+            if singles == 0 || rng.chance(1, 3) {
+                // the closing multi-parameter group
+                if singles > 0 {
+                    out.push(b';');
+                }
+                let sep = if rng.chance(1, 3) { b':' } else { b';' };
+                match rng.below(8) {
+                    0 => out.push(b'4'),
+                    1 => {
+                        out.extend_from_slice(b"4:");
+                        out.push(b'0' + rng.below(6) as u8);
+                    }
+                    2..=4 => {
+                        out.extend_from_slice(rng.pick(&["38", "48", "58", "38", "48"]).as_bytes());
+                        out.push(sep);
+                        out.push(b'5');
+                        out.push(sep);
+                        let n = match rng.below(3) {
+                            0 => rng.below(16),
+                            1 => *rng.pick(&[15usize, 16, 17, 231, 232, 255, 8, 7, 0]),
+                            _ => rng.below(256),
+                        };
+                        out.extend_from_slice(n.to_string().as_bytes());
+                    }
+                    _ => {
+                        out.extend_from_slice(rng.pick(&["38", "48", "58", "38", "48"]).as_bytes());
+                        out.push(sep);
+                        out.push(b'2');
+                        for _ in 0..3 {
+                            out.push(sep);
+                            out.extend_from_slice(rng.pick(&[0usize, 1, 5, 15, 128, 255, 200]).to_string().as_bytes());
+                        }
+                    }
+                }
+            }
+            out.push(b'm');
+        }
+        let end = wl.bytes.len();
+        wl.toks.push(Tok { start, end, kind });
+    }
+    wl
+}
+
+/// Workload from a restricted, well-formed escape grammar whose visible text is unambiguous:
+/// text (printable ASCII, `\n`/`\t`/`\r`, characters from U+00A0 up) interleaved with complete
+/// CSI sequences, OSC/DCS/SOS/PM/APC strings with printable-ASCII payloads and a proper
+/// terminator, and two/three-byte ESC sequences.  `common::simple_strip_model` reads exactly this
+/// grammar independently of the code under test.
+pub fn simple_escape_workload(rng: &mut Rng, max_len: usize) -> Workload {
+    let sw = swarm(rng, Flavor::Text, max_len);
+    let mut wl = Workload::default();
+    let payload = |rng: &mut Rng, out: &mut Vec<u8>, max: usize| {
+        for _ in 0..rng.below(max + 1) {
+            out.push(0x20 + rng.below(0x5f) as u8);
+        }
+    };
+    while wl.bytes.len() < sw.target_len.max(1) && wl.toks.len() < 40_000 {
+        let start = wl.bytes.len();
+        let out = &mut wl.bytes;
+        let kind = match rng.below(12) {
+            0..=4 => {
+                match rng.below(9) {
+                    0 => out.push(*rng.pick(b"\n\t\r\x0c")),
+                    8 => out.push(*rng.pick(&[0x00u8, 0x07, 0x08, 0x0b, 0x0e, 0x18, 0x1a, 0x1f, 0x7f])),
+                    1 => push_char(out, rand_char_in(rng, 0xa0, 0x7ff)),
+                    2 => push_char(out, rand_char_in(rng, 0x800, 0xffff)),
+                    3 => push_char(out, rand_char_in(rng, 0x10000, 0x10ffff)),
+                    _ => {
+                        for _ in 0..rng.range(1, 8) {
+                            out.push(0x20 + rng.below(0x5f) as u8);
+                        }
+                    }
+                }
+                Kind::Ascii
+            }
+            5..=7 => {
+                out.extend_from_slice(b"\x1b[");
+                if rng.chance(1, 4) {
+                    out.push(*rng.pick(b"<=>?"));
+                }
+                for _ in 0..rng.below(10) {
+                    out.push(*rng.pick(b"0123456789;;:"));
+                }
+                for _ in 0..rng.below(3).saturating_sub(0).min(if rng.chance(1, 4) { 2 } else { 0 }) {
+                    out.push(0x20 + rng.below(16) as u8);
+                }
+                out.push(0x40 + rng.below(0x3f) as u8);
+                Kind::Csi
+            }
+            8 => {
+                out.extend_from_slice(b"\x1b]");
+                payload(rng, out, 24);
+                if rng.chance(1, 2) {
+                    out.push(0x07);
+                } else {
+                    out.extend_from_slice(b"\x1b\\");
+                }
+                Kind::Osc
+            }
+            9 => {
+                out.extend_from_slice(b"\x1bP");
+                for _ in 0..rng.below(6) {
+                    out.push(*rng.pick(b"0123456789;"));
+                }
+                if rng.chance(1, 4) {
+                    out.push(0x20 + rng.below(16) as u8);
+                }
+                out.push(0x40 + rng.below(0x3f) as u8);
+                payload(rng, out, 16);
+                if rng.chance(1, 3) {
+                    out.push(0x9c);
+                } else {
+                    out.extend_from_slice(b"\x1b\\");
+                }
+                Kind::Dcs
+            }
+            10 => {
+                out.push(0x1b);
+                out.push(*rng.pick(b"X^_"));
+                payload(rng, out, 16);
+                if rng.chance(1, 3) {
+                    out.push(0x9c);
+                } else {
+                    out.extend_from_slice(b"\x1b\\");
+                }
+                Kind::SosPmApc
+            }
+            _ => {
+                out.push(0x1b);
+                let inter = if rng.chance(1, 3) { rng.range(1, 2) } else { 0 };
+                for _ in 0..inter {
+                    out.push(0x20 + rng.below(16) as u8);
+                }
+                loop {
+                    let f = 0x30 + rng.below(0x4f) as u8;
+                    if inter > 0 || !matches!(f, b'[' | b']' | b'P' | b'X' | b'^' | b'_') {
+                        out.push(f);
+                        break;
+                    }
+                }
+                Kind::Esc
+            }
+        };
+        if kind != Kind::Ascii && rng.chance(1, 10) {
+            // CAN / SUB abort the sequence wherever they fall; what follows is text again
+            let len = wl.bytes.len() - start;
+            let keep = rng.range(1, len.max(2) - 1).min(len);
+            wl.bytes.truncate(start + keep);
+            wl.bytes.push(*rng.pick(&[0x18u8, 0x1a]));
+        }
+        let end = wl.bytes.len();
+        wl.toks.push(Tok { start, end, kind });
     }
     wl
 }
